@@ -113,9 +113,11 @@ func SetupGenesisBlock(db kaidb.Database, genesis *Genesis) (*configs.ChainConfi
 		return configs.TestnetChainConfig, common.Hash{}, errGenesisNoConfig
 	}
 
-	// Just commit the new block if there is no stored genesis block.
+	// Just commit the new block if there is no stored genesis block. The canonical hash is
+	// written together with the block, the head pointer after it: a genesis block without a
+	// head pointer is one whose writing a crash interrupted, and it is written again.
 	stored := rawdb.ReadCanonicalHash(db, 0)
-	if (stored == common.Hash{}) {
+	if (stored == common.Hash{}) || (rawdb.ReadHeadBlockHash(db) == common.Hash{}) {
 		if genesis == nil {
 			log.Info("Writing default main-net genesis block")
 			genesis = DefaultGenesisBlock()
@@ -239,9 +241,10 @@ func (g *Genesis) Commit(db kaidb.Database) (*types.Block, error) {
 	rawdb.WriteBlock(db, block, partsSet, &types.Commit{})
 	rawdb.WriteBlockInfo(db, block.Hash(), block.Height(), nil)
 	rawdb.WriteCanonicalHash(db, block.Hash(), block.Height())
-	rawdb.WriteHeadBlockHash(db, block.Hash())
 	rawdb.WriteAppHash(db, block.Height(), block.AppHash())
 	rawdb.WriteChainConfig(db, block.Hash(), config)
+	// last: SetupGenesisBlock takes a genesis block without a head pointer for half-written
+	rawdb.WriteHeadBlockHash(db, block.Hash())
 
 	return block, nil
 }
